@@ -129,7 +129,7 @@ func execConcKeys(c ConcKeysCase) kit.Outcome {
 }
 
 func TestKeysConcurrent(t *testing.T) {
-	kit.Check(t, kit.Spec[ConcKeysCase]{Sub: "conckeys", Quick: 25, Thorough: 600, TrackCase: true,
+	kit.Check(t, kit.Spec[ConcKeysCase]{Sub: "conckeys", Quick: 25, Thorough: 1500, TrackCase: true,
 		Gen: func(t *rapid.T) ConcKeysCase {
 			c := ConcKeysCase{Rounds: rapid.SampledFrom([]int{50, 300}).Draw(t, "rounds"), Writer: rapid.Bool().Draw(t, "writer")}
 			for i, n := 0, rapid.IntRange(6, 40).Draw(t, "nkeys"); i < n; i++ {
